@@ -126,6 +126,35 @@ add("C15", "fixed-expression-thread-safety", "d021998: Expression.evaluate kept 
     {"stage": "k1-exhaustive", "defs": root([f("cnt", S("uint8")), f("dyn", {"k": "a", "t": S("char"), "len": ["expr", "cnt * 2 + 1", ["bin", "+", ["bin", "*", ["id", "cnt"], ["lit", 2, "2"]], ["lit", 1, "1"]]]})]),
      "root": "Root", "cfg": cfg(), "datas": ["0041000000", "01424344000000"]})
 
+# --- found by the audit round (DESIGN 8.3)
+add("C03", "fixed-compiled-char-bitfield-unit", "1195d85: compiled reader let a char bit-field share the unit of a neighbouring uint8 bit-field",
+    {"stage": "diff", "defs": root([f("a", S("uint8"), 4), f("b", S("char"), 4), f("t", S("uint8"))]), "root": "Root", "cfg": cfg(compiled=True), "data": "a7c35a", "raw": ""})
+add("C09", "fixed-char-bitfield-value-shortcut", "3aabc3e: Root(b'A') for struct { char c : 8; } stored bytes in the bit-field instead of parsing",
+    {"stage": "streams", "defs": root([f("c", S("char"), 8)]), "root": "Root", "cfg": cfg(), "data": "41", "consumed": 1, "p": 0, "prefixes": ["", ""], "suffixes": ["", ""], "seq": 0, "cut": 0})
+add("C04", "fixed-default-char-bitfield-dump", "3bfc58f: R().dumps() raised TypeError for struct R { char a : 8; }",
+    {"stage": "nested", "defs": root([f("a", S("char"), 8)]), "root": "Root", "cfg": cfg()})
+add("C09", "fixed-dynamic-union-sizes", "68eab87: recorded sizes of a dynamic union included the stream position",
+    {"stage": "dynamic-unions", "dynunion": True, "text": "struct Root { char p0[3]; union { struct { uint8 len; char data[len]; } m0; uint16 m1; } u; uint8 q0; };", "data": "616263024142ee" + "00" * 20,
+     "p": 7, "prefix": "00112233445566", "suffix": "", "compiled": False, "endian": "<"})
+add("C08", "fixed-dynamic-union-backing-read", "2d7bc12: a short read while re-reading a dynamic union's bytes fabricated the next field",
+    {"stage": "dynamic-unions", "dynunion": True, "text": "struct Root { union { char m0[]; } u; uint8 q0; };", "data": "6162007f", "p": 0, "prefix": "", "suffix": "", "compiled": False, "endian": "<"})
+add("C06", "fixed-aligned-odd-storage-unit", "d0c7a6d: aligned mode, second bit-field of a 24-bit unit laid out in a phantom second unit",
+    {"stage": "random", "defs": root([f("lead", S("uint8")), f("a", S("uint24"), 21), f("b", S("uint24"), 3), f("tail", S("uint8"))]), "root": "Root", "cfg": cfg(align=True, compiled=True), "data": "01eeeeee05060708"})
+add("C12", "fixed-enum-equals-flag", "1c8486a: an enum member compared equal to a flag member of the same value",
+    {"stage": "declarations", "shadow": None, "kind": "enum", "base": "uint8", "members": [["A", "1", ["lit", 1, "1"]], ["B", None, None]], "name": "E", "legacy": False, "compiled": False,
+     "endian": "<", "salt": 1, "layout": "oneline", "base_spelling": 0, "tier": "quick"})
+add("C13", "fixed-declarator-whitespace", "7d6d95a: 'uint8 a [2];' was rejected, 'uint8 * *p;' declared uint8*",
+    {"stage": "trivia", "edit": "trivia", "items": [{"kind": "struct", "name": "S1", "text": "struct S1 { uint8 a[2]; uint8 **p; uint8 b[2][3]; };\n", "deps": [], "names": ["S1"]}],
+     "inserts": [[0, 0, 13], [1, 0, 13], [2, 3, 13], [0, 0, 1]], "crlf": False, "compact": False, "compiled": False, "align": False})
+add("C13", "fixed-derived-typedef-redeclared", "741bfa2: 'typedef uint32 *P;' loaded twice raised Duplicate type",
+    {"stage": "aliases", "edit": "aliases", "depth": 2, "base": "uint32", "multi": 1, "via": "typedef", "redeclare_same": True, "cycle_len": 2, "unknown": "nosuch"})
+add("C20", "fixed-inline-structure-behind-pointer", "8eee89c: Pointer[cstruct.__anonymous_0__] without a class of that name",
+    {"stage": "stubs", "items": [{"kind": "struct", "name": "S1", "text": "struct S1 { struct { uint8 a; } *p; uint8 z; };\n", "deps": [], "names": ["S1"]}], "consts": [], "compiled": False, "keywords": False, "api_aliases": []})
+add("C04", "fixed-sizeof-multi-word-name", "3a9608c: sizeof(long long) raised 'Invalid sizeof operation'",
+    {"stage": "aliases", "alias": "long long", "kind": "int", "size": 8, "align": False, "compiled": False})
+add("C03", "fixed-compiled-custom-type-array", "5879909: a fixed array of a custom static-size type was dropped by the compiled reader",
+    {"stage": "custom-types", "custom": True, "members": ["offbyone b2[2];", "", ""], "endian": "<", "align": False, "data": bytes(range(120)).hex(), "cut": 50})
+
 for prop, name, note, case in R:
     d = os.path.join(VERIF, "replays", prop)
     os.makedirs(d, exist_ok=True)
